@@ -247,15 +247,21 @@ def run(ctx):
         for P in (1, 2, 3):
             for _ in range(per_P[P]):
                 cases.append(gen_case(ctx, k, P)); k += 1
+    import time
     model_lines = []
     for P in (1, 2, 3):
         sub = [c for c in cases if c["P"] == P]
         if not sub: continue
+        t0 = time.time()
         impl, crashed = fw.run_impl_lines(ctx, "drv_cycle", [c["line"] for c in sub], nprocs=P, name="c09_p%d" % P, timeout=1500)
+        t1 = time.time()
         for c in sub: judge(ctx, c, impl.get(c["cid"]), model_lines)
+        ctx.notes.append("P=%d: %d cases, implementation %.1fs, oracle %.1fs" % (P, len(sub), t1 - t0, time.time() - t1))
     if model_lines:
         cf = fw.write_cases(ctx, "c09.model", [m["mline"] for m in model_lines])
+        t0 = time.time()
         rcm, model, _, errm = fw.run_model(ctx, cf, timeout=1500)
+        ctx.notes.append("model: %d case lines, %.1fs" % (len(model_lines), time.time() - t0))
         if rcm != 0: ctx.signal("K", "modeldriver", "model driver exited with %s: %s" % (rcm, errm[-400:]))
         for m in model_lines: compare_model(ctx, m, model.get(m["cid"]))
 
